@@ -542,6 +542,17 @@ pub fn families() -> Vec<Box<dyn Family>> {
                 if sa != sb && !sa.is_empty() && !sb.is_empty() {
                     out.nontrivial(&(&sa, &sb));
                 }
+                // the byte inputs are views at EVERY ALIGNMENT of their buffers (start address = 8-byte aligned
+                // allocation + 0..7): the result may not depend on where the bytes happen to live
+                let (ka, kb) = ((idx % 8) as usize, (idx / 8 % 8) as usize);
+                let mut bufa = vec![b'#'; ka];
+                bufa.extend_from_slice(&a);
+                let mut bufb = vec![b'#'; kb];
+                bufb.extend_from_slice(&b);
+                let (a, b) = (&bufa[ka..], &bufb[kb..]);
+                if ka + kb > 0 && a.len() >= 64 {
+                    out.count("misaligned_byte_inputs_of_64_bytes_or_more");
+                }
                 for alg in ALGS {
                     for tok in 0..3 {
                         out.evals_add(2);
